@@ -128,7 +128,7 @@ class Obligation:
         self.assumptions = assumptions or []
         self.result = None
 
-def cbmc_cmd(files, entry, unwindset, defines=(), includes=(), unwind=1, solver="cadical", extra=(), checks=True):
+def cbmc_cmd(files, entry, unwindset, defines=(), includes=(), unwind=1, solver="cadical", extra=(), checks=True, no_checks=()):
     cmd = ["cbmc"]
     for i in includes: cmd += ["-I", i]
     for d in defines: cmd += ["-D", d]
@@ -136,7 +136,7 @@ def cbmc_cmd(files, entry, unwindset, defines=(), includes=(), unwind=1, solver=
     cmd += ["--function", entry, "--unwind", str(unwind)]
     if unwindset: cmd += ["--unwindset", ",".join("%s:%d" % (k, v) for k, v in unwindset.items())]
     cmd += ["--unwinding-assertions", "--drop-unused-functions", "--no-malloc-may-fail", "--verbosity", "8"]
-    if checks: cmd += CBMC_CHECKS
+    if checks: cmd += [c for c in CBMC_CHECKS if c not in no_checks]
     if solver == "kissat": cmd += ["--external-sat-solver", "kissat"]
     elif solver: cmd += ["--sat-solver", solver]
     cmd += list(extra)
